@@ -23,6 +23,7 @@
 -/
 import PicoSVG.Props.C11
 import Mathlib.Tactic.FieldSimp
+import PicoSVG.Proofs.TmplP
 
 set_option linter.unusedSectionVars false
 
@@ -99,5 +100,15 @@ theorem bake_then_fold (M T s' : Aff α) (d p1 p2 x : Pt α)
 /-- non-vacuity of the decomposition hypothesis: a scale-by-2 with translation (6, 4) is translate (3, 2) then scale 2 -/
 example : Aff.composeLtr [translation (⟨3, 2⟩ : Pt ℚ), ⟨2, 0, 0, 2, 0, 0⟩] = ⟨2, 0, 0, 2, 6, 4⟩ := by
   decide +kernel
+
+/-- C06 (href templates): when a template is inlined, every attribute the gradient set itself keeps its value, a
+    coordinate / units / spread / transform field it did not set takes the template's value, and nothing else is added —
+    on the model of `_apply_gradient_template` (`SvgObj.inheritFields` is the loop the model runs) -/
+theorem template_inheritance (fields : List String) (tmpl a : Attrs) (k : String) :
+    Attrs.get (SvgObj.inheritFields fields tmpl a) k
+      = match Attrs.get a k with
+        | some v => some v
+        | none => if fields.contains k then Attrs.get tmpl k else none :=
+  TmplP.inheritFields_get fields tmpl a k
 
 end PicoSVG.Props.C06
